@@ -19,12 +19,25 @@ use tokio::io::{AsyncRead, AsyncWrite, ReadBuf};
 pub trait SimIo: AsyncRead + AsyncWrite + Send + Unpin + 'static {}
 impl<T: AsyncRead + AsyncWrite + Send + Unpin + 'static> SimIo for T {}
 
+/// Socket options the simulator wants to see (shared with the simulated
+/// connection, which acts on them when the stream is dropped).
+#[derive(Debug, Default)]
+pub struct SockOpts {
+    /// `SO_LINGER`: `Some(0)` makes dropping the socket abortive (unsent data
+    /// is discarded and the peer gets a reset).
+    pub linger: std::sync::Mutex<Option<std::time::Duration>>,
+}
+
 /// Stand-in for `tokio::net::TcpStream`.
-pub struct TcpStream(Box<dyn SimIo>, Option<(SocketAddr, SocketAddr)>);
+pub struct TcpStream(
+    Box<dyn SimIo>,
+    Option<(SocketAddr, SocketAddr)>,
+    Option<std::sync::Arc<SockOpts>>,
+);
 
 impl TcpStream {
     pub fn new<T: SimIo>(io: T) -> TcpStream {
-        TcpStream(Box::new(io), None)
+        TcpStream(Box::new(io), None, None)
     }
 
     /// Like `new`, also recording the (local, peer) addresses reported by
@@ -34,12 +47,18 @@ impl TcpStream {
         local: SocketAddr,
         peer: SocketAddr,
     ) -> TcpStream {
-        TcpStream(Box::new(io), Some((local, peer)))
+        TcpStream(Box::new(io), Some((local, peer)), None)
+    }
+
+    /// Share the socket options with the simulator.
+    pub fn with_opts(mut self, opts: std::sync::Arc<SockOpts>) -> TcpStream {
+        self.2 = Some(opts);
+        self
     }
 
     // The socket accessors server code most commonly reaches for, so that a
     // change using them still builds under simulation.  Options are accepted
-    // and ignored.
+    // and ignored, except `SO_LINGER`, which the simulator is told about.
 
     pub fn local_addr(&self) -> io::Result<SocketAddr> {
         self.1.map(|a| a.0).ok_or_else(|| io::ErrorKind::NotConnected.into())
@@ -67,13 +86,16 @@ impl TcpStream {
 
     pub fn set_linger(
         &self,
-        _dur: Option<std::time::Duration>,
+        dur: Option<std::time::Duration>,
     ) -> io::Result<()> {
+        if let Some(opts) = &self.2 {
+            *opts.linger.lock().unwrap() = dur;
+        }
         Ok(())
     }
 
     pub fn linger(&self) -> io::Result<Option<std::time::Duration>> {
-        Ok(None)
+        Ok(self.2.as_ref().and_then(|o| *o.linger.lock().unwrap()))
     }
 }
 
